@@ -133,8 +133,6 @@ class FuncView:
                 continue
             try:
                 neg = normalize._BoolNF().visit(normalize._negate(ast.parse(ast.unparse(t), mode="eval").body))
-                if isinstance(neg, ast.UnaryOp) and isinstance(neg.op, ast.Not) and not isinstance(t, ast.UnaryOp):
-                    continue        # only genuine dual spellings (==/!=, in/not in, is/is not, not X / X)
                 if pred(neg):
                     proxies.append(NegTest(n, neg))
             except Exception:
